@@ -6,7 +6,7 @@ VERIF = os.path.dirname(os.path.dirname(os.path.abspath(__file__)))
 
 TRUSTED_BASE = [
     'T1 ISA specifications spec/isa_*.rs (step/run/encodable/encoded_len), hand-written from the vendor manuals the source links to; word-granular memory with non-wrapping byte addresses',
-    'T2 extraction rules R1-R7 of engine/extract.py (R3 derive(Structural), R4 static dispatch of `impl Trait for Backend`, R5 call-site specialisation of fn-pointer parameters)',
+    'T2 extraction rules R1-R11 of engine/extract.py (R3 derive(Structural), R4 static dispatch of `impl Trait for Backend`, R5 call-site specialisation of fn-pointer parameters, R6 desugaring of .iter()[.take(K)].enumerate() loops, R11 assumed derived clone)',
     'T3 impl Print/Display for Code/Register/Immediate: the printed text is assumed to denote the Code value',
     'T4 assembler, linker, libc, OS process conventions',
     'Verus 0.2026.09.13 + bundled Z3; rustc 1.98.1 front end',
@@ -24,8 +24,8 @@ PROPS = {
         'aux': ['native_linearize'],
         'level': 'other',
         'claim': 'Proved by Verus: the kernels of linearization - fresh_identifier (strictly increasing ids), TypingContext::freshen (same length, kinds and types position-wise equal, a variable is kept iff its id is neither in the clash set nor used at an earlier position, otherwise it receives an id above the old maximum; result ids pairwise distinct and disjoint from the clash set) and TypingContext::filter_by_set (every result binding has its id in the set, comes from the input, no input binding with id in the set is lost, retained bindings keep their positions; both loops terminate; no index or underflow panic). Bounded native contract check of the real Prog::linearize: for thousands of random well-typed non-linear AxCut programs the linearized program is checked against the executable form of the property - at every statement the ordered environment is exactly the list that statement expects (call / invoke / let / switch / create), positions agree in kind and type, substitutions read bound variables and bind pairwise distinct targets, operands remain available - and its behaviour on an AxCut reference machine (consuming, positional discipline) equals that of the source program (named, non-consuming discipline).',
-        'note': 'Bounded (random programs of bounded size), never counted as proved. The oracle is the property text, clause by clause, plus a reference interpreter written for this purpose (trusted).',
-        'technique': 'bounded native contract check of linearize against the executable postcondition (exact environments) and a reference AxCut machine',
+        'note': 'The Verus part covers the kernels only; Linearizing::linearize itself (AST recursion over Rc / HashSet) is bounded (random programs of bounded size), never counted as proved. The oracle of the bounded check is the property text, clause by clause, plus a reference interpreter written for this purpose (trusted).',
+        'technique': 'Verus contracts on fresh_identifier / TypingContext::freshen / TypingContext::filter_by_set + bounded native contract check of linearize against the executable postcondition (exact environments) and a reference AxCut machine',
         'not_decided': 'linearization for all programs (unbounded); the reference interpreter is trusted',
         'explanation': 'Verus: freshen / filter_by_set / fresh_identifier contracts. Bounded: random non-linear programs -> Prog::linearize -> executable postcondition + behavioural equality on a reference machine.',
     },
@@ -100,18 +100,18 @@ PROPS = {
         'kill_units': ['x86_routine', 'a64_routine'],
         'aux': ['native_prints'],
         'level': 'other',
-        'claim': 'Prologue, epilogue and argument shuffle of the x86-64 routine are proved by Verus over the ISA model (callee-saved registers and rsp restored, result register untouched by the epilogue, stack-pointer alignment arithmetic, heap/free initialisation). The save/align/call/restore sequence around the print runtime and the whole routine skeleton (both backends) are checked by a bounded native contract check for 1..20 live variables x kind assignments x argument positions and 0..5 / 0..7 entry arguments, on machine models whose call destroys all caller-saved state and faults on a misaligned stack pointer.',
-        'note': 'The print sequence uses iterator adapters (.enumerate()) that Verus rejects; that part is bounded, not proved. Trusted: machine/call models (T1), calling-convention tables.',
-        'technique': 'Verus contracts on setup/cleanup/move_arguments + bounded native contract check of print_i64 and the routine skeleton under a clobbering call model',
-        'not_decided': 'unbounded proof of the save/restore loops (iterator adapters outside Verus)',
-        'explanation': 'Verus: x86-64 setup / cleanup / move_arguments / preamble (proved) + lemma_prologue_epilogue. Bounded: print_i64 call sequence for 1..20 live variables and whole-routine execution for every supported number of parameters on x86-64 and AArch64.',
+        'claim': 'Prologue, epilogue and argument shuffle of the x86-64 and AArch64 routines are proved by Verus over the ISA models (callee-saved registers and the stack pointer restored, result register untouched by the epilogue, stack-pointer alignment arithmetic, heap/free initialisation; AArch64 setup in the thorough tier only). caller_save_registers_info is proved on both backends to return exactly the caller-saved registers that hold live variables (plus X30 and the scratch register on AArch64), for every context. The save/align/call/restore sequence around the print runtime and the whole routine skeleton (both backends) are checked by a bounded native contract check for 1..20 live variables x kind assignments x argument positions and 0..5 / 0..7 entry arguments, on machine models whose call destroys all caller-saved state and faults on a misaligned stack pointer.',
+        'note': 'The push/pop loops of save/restore_caller_save_registers and their composition with the call are bounded, not proved. Trusted: machine/call models (T1), calling-convention tables, rule R6.',
+        'technique': 'Verus contracts on setup/cleanup/move_arguments/caller_save_registers_info + bounded native contract check of print_i64 and the routine skeleton under a clobbering call model',
+        'not_decided': 'unbounded proof of the push/pop loops of the print sequence composed with the call',
+        'explanation': 'Verus: x86-64 and AArch64 setup / cleanup / move_arguments / preamble + lemma_prologue_epilogue; caller_save_registers_info (both backends). Bounded: print_i64 call sequence for 1..20 live variables and whole-routine execution for every supported number of parameters on x86-64 and AArch64.',
     },
     'C20': {
         'units': ['x86_routine', 'a64_routine'],
         'kill_units': ['x86_routine', 'a64_routine'],
         'aux': ['cbmc_io', 'cbmc_driver', 'native_prints'],
         'level': 'other',
-        'claim': 'Generated C driver: proved by CBMC (complete: loop-free up to the fixed argument count, all 64-bit values) for 0..7 parameters - wrong argument count is reported and nothing runs, otherwise every decimal argument reaches its parameter unchanged and in order and the result of main is the result of asm_main. Argument shuffle move_arguments (x86-64): proved by Verus as one simultaneous assignment. io.c: CBMC on the real file; quick tier: all values -9999..9999 symbolically plus all boundary constants (bounded); thorough tier: the whole int64 domain partitioned into digit classes (complete iff every class finishes within its time cap). Whole-routine execution with 0..5 / 0..7 parameters on the machine models (bounded).',
+        'claim': 'Generated C driver: proved by CBMC (complete: loop-free up to the fixed argument count, all 64-bit values) for 0..7 parameters - wrong argument count is reported and nothing runs, otherwise every decimal argument reaches its parameter unchanged and in order and the result of main is the result of asm_main. Argument shuffle move_arguments (x86-64 and AArch64): proved by Verus as one simultaneous assignment. io.c: CBMC on the real file; quick tier: all values -9999..9999 symbolically plus all boundary constants (bounded); thorough tier: the whole int64 domain partitioned into digit classes (complete iff every class finishes within its time cap). Whole-routine execution with 0..5 / 0..7 parameters on the machine models (bounded).',
         'note': 'Bounded in the quick tier for io.c. Trusted: CBMC, the typed contracts of the libc conversion functions, POSIX exit status truncation, write(2).',
         'technique': 'CBMC on the real io.c and on the generated driver text against functional contracts; Verus contract on move_arguments',
         'not_decided': 'io.c for the full int64 domain in the quick tier (bounded there)',
